@@ -251,6 +251,36 @@ fn scramble(rng: &mut Rng, s: &str) -> String {
     }
 }
 
+/// `w` written with characters that LOOK like its letters but are other code points: fullwidth
+/// forms (all letters / the first / one), Cyrillic homoglyphs, a decomposed accent, a soft hyphen
+/// or zero-width joiner inside. None of them is the dictionary's entry: title-casing may change
+/// their letter case and nothing else.
+fn lookalike(rng: &mut Rng, w: &str) -> String {
+    let fw = |c: char| if c.is_ascii_alphanumeric() || c.is_ascii_punctuation() { char::from_u32(c as u32 + 0xFEE0).unwrap_or(c) } else { c };
+    let cs: Vec<char> = w.chars().collect();
+    if cs.is_empty() {
+        return String::new();
+    }
+    match rng.below(7) {
+        0 => cs.iter().map(|c| fw(*c)).collect(),
+        1 => cs.iter().map(|c| fw(c.to_ascii_lowercase())).collect(),
+        2 => cs.iter().enumerate().map(|(i, c)| if i == 0 { fw(*c) } else { *c }).collect(),
+        3 => {
+            let k = rng.below(cs.len());
+            cs.iter().enumerate().map(|(i, c)| if i == k { fw(*c) } else { *c }).collect()
+        }
+        4 => cs.iter().map(|c| match c { 'o' => 'о', 'a' => 'а', 'e' => 'е', 'c' => 'с', 'p' => 'р', 'A' => 'А', 'O' => 'О', 'E' => 'Е', 'C' => 'С', 'P' => 'Р', x => *x }).collect(),
+        5 => {
+            let k = rng.below(cs.len());
+            let mut out: String = cs[..=k].iter().collect();
+            out.push(*rng.pick(&['\u{ad}', '\u{200d}', '\u{301}', '\u{200b}']));
+            out.extend(cs[k + 1..].iter());
+            out
+        }
+        _ => cs.iter().map(|c| if *c == '\'' { '＇' } else { fw(*c) }).collect(),
+    }
+}
+
 fn headline(rng: &mut Rng, env: &Env, sents: &[String]) -> String {
     let extras = [
         "ß", "é", "İ", "ı", "straße", "café", "İstanbul", "naïve", "Ünited", "state-of-the-art", "well-known", "x-ray", "e-mail",
@@ -274,6 +304,10 @@ fn headline(rng: &mut Rng, env: &Env, sents: &[String]) -> String {
             3 => rng.pick(&env.proper_apos).clone(),
             4 => rng.pick(&env.proper_apos).replace('\'', "’"),
             5 => rng.pick(&env.lower_words).clone(),
+            6 if rng.chance(1, 2) => {
+                let w = rng.pick(&env.proper).clone();
+                lookalike(rng, &w)
+            }
             6 => format!("{}-{}", rng.pick(&env.lower_words), rng.pick(&env.proper)),
             _ => rng.pick(&extras).to_string(),
         };
@@ -411,6 +445,21 @@ pub fn run(ctx: &Ctx) {
         for v in [w.clone(), w.to_lowercase(), w.replace('\'', "’"), w.to_uppercase().replace('\'', "’")] {
             eval(&mut sess, &env, &format!("the {} of it", v), "proper-apostrophe");
         }
+    }
+    // 3b. proper nouns written in look-alike characters (fullwidth, homoglyphs, invisible joiners)
+    let nlook = if ctx.tier == Tier::Thorough { 6000 } else { 600 };
+    for t in ["a review of ｍｉｃｒｏｓｏｆｔ office", "searching with Ｇoogle", "the ｉphone of it", "ｏ＇ｒｅｉｌｌｙ books", "the Micro\u{ad}soft way"] {
+        eval(&mut sess, &env, t, "lookalike");
+    }
+    for _ in 0..nlook {
+        let w = if rng.chance(1, 4) { rng.pick(&env.proper_apos).clone() } else { rng.pick(&env.proper).clone() };
+        let v = lookalike(&mut rng, &w);
+        let t = match rng.below(3) {
+            0 => format!("the {} of it", v),
+            1 => format!("{} and {}", v, w.to_lowercase()),
+            _ => v,
+        };
+        eval(&mut sess, &env, &t, "lookalike");
     }
     let nprop = if ctx.tier == Tier::Thorough { env.proper.len() } else { env.proper.len().min(1500) };
     for k in 0..nprop {
